@@ -113,6 +113,26 @@ def roles_of(v, env):
     return None
 
 
+def inputs_untouched(ctx, chk, f):
+    """R13.8 the caller's replicate array, estimate and alpha are read-only in every branch (limits of a second call on the same replicates are the documented ones too)."""
+    from ..evalr import storage_root
+    n = 0
+    for method in ("quantile", "bc", "bca"):
+        for o in ctx.explore(lambda: ctx.ev.call(f, [TH, HAT, AL], {"method": Const(method)}), chk):
+            if o.kind != "return":
+                continue
+            n += 1
+            bad = [e for e in o.events if e["kind"] in ("inplace", "augstore", "store") and e.get("root") in (TH, HAT, AL)]
+            if bad:
+                e = bad[0]
+                chk.violation("R13.8", Q, "%s:input-mutated" % method, "%s of %s (storage of %s)" % (e.get("how", e["kind"]), e.get("target", "?"), show(e["root"], 40)),
+                              "theta, theta_hat and alpha are only read", "%s:%s" % (f.fi.module.relpath, getattr(e.get("node"), "lineno", "?")))
+            else:
+                chk.hold("R13.8", "%s:path[%s]" % (method, "".join("T" if t else "F" for _c, t in o.pc)), "no in-place write reaches the storage of theta, theta_hat or alpha")
+    if n < 3:
+        chk.unknown("R13.8", "only %d return paths analysed" % n)
+
+
 def run(ctx, chk, tier):
     chk.rule_text = ("one obligation per formula component (levels, bias correction, acceleration, per-component quantile, axis roles) for methods quantile/bc/bca; "
                      "non-trivial = term mentions theta/theta_hat/alpha")
@@ -125,6 +145,7 @@ def run(ctx, chk, tier):
                     "numpy.moveaxis(source, destination)", "reshape preserves C order"}
     chk.assumptions = ["ordering / nesting / range corollaries are mathematics over the verified formula and are not separately decided"]
     f = ctx.fn(Q)
+    inputs_untouched(ctx, chk, f)
     # ---------------- quantile
     outs = ctx.explore(lambda: ctx.ev.call(f, [TH, HAT, AL], {"method": Const("quantile")}), chk)
     rets = returns(outs)
